@@ -43,6 +43,14 @@ func (c Cfg) ModelThresh() int64 {
 	return c.Thresh
 }
 
+// ModelStride: the seek stride data.Writer uses (0 = DefaultSeekStride, 64 KiB).
+func (c Cfg) ModelStride() int {
+	if c.Stride == 0 {
+		return 64 * 1024
+	}
+	return c.Stride
+}
+
 func keyLit(r *rand.Rand, mixed bool) (zsonLit, atom string) {
 	if mixed && r.Intn(4) == 0 {
 		ss := []string{"a", "b", "ab", "", "z"}
